@@ -11,6 +11,7 @@ import hmac
 from vlib.common import fp
 
 LEVEL = "exploration"
+INSITU_OWNED = ("insitu:prf",)
 PRF_DIGESTS = ("sha1", "sha256", "sha512", "md5")
 HASH_DIGESTS = PRF_DIGESTS + ("shake_128", "shake_256")
 
